@@ -18,15 +18,21 @@ THEOREMS = [P + t for t in [
 RULE = ("candidate lists of 0-4 variants (ECU variants with 0-3 patterns, base variants with 0-1 pattern, mixed lists, the same "
         "object twice) x 1-3 matching parameters, identification services shared by name and request bytes, distinct, or "
         "colliding on the request bytes; SNREF and SNPATHREF targets into structures, fields (any item), table-struct pairs; "
-        "leaves str/int/bool/None/bytes/bytearray/DTC (+float, oracle only); 1-3 response objects per service (positive, "
+        "leaves str/int/bool/None/bytes/bytearray/DTC (+float, oracle only: values from 0 and 5e-324 over 1.7e9 and 2**53 to the largest double, "
+        "both signs, inf/nan; expected values at exact decimal distances around them that straddle the absolute tolerance 1e-8 or lie within a "
+        "relative distance 1e-16..1e-3, the doubles next to the boundary of the tolerance, decimal / scientific / integer notation); "
+        "1-3 response objects per service (positive, "
         "negative, global negative) that decode, raise DecodeError or (malformed stream) something else; ECU = table over a "
         "2-4 value alphabet incl. the empty answer and negative responses, exhaustive over all tables when there are few, "
         "physical/functional answers equal or different; strict mode on/off; cache on/off; misuse scripts (no evaluate, "
-        "abandoned loop, re-run). Two builders: objects with stubbed encode_request/decode ('obj'), and ODX XML through the "
+        "abandoned loop, re-run); every case with the answers handed to evaluate() as immutable bytes and additionally as a new bytearray per "
+        "answer or one receive buffer re-used for all answers, each left alone or overwritten by the caller once evaluate() has returned. "
+        "Two builders: objects with stubbed encode_request/decode ('obj'), and ODX XML through the "
         "real parser with the real encode_request/decode ('xml'; the reference and the model take the matching parameters as "
         "written in the document, the matcher the loaded objects; 'xml-text': blank padded fixed-length ASCII identification "
         "texts in structures and fields, expected values derived from the decoded responses, with and without white space at "
-        "their ends -- white space in an expected value is significant). Service short names (all builders) range over the legal ODX "
+        "their ends -- white space in an expected value is significant; 'xml-float': IEEE doubles / singles, an integer scaled to a float, "
+        "floats in a structure and in the items of a field, decoded by the real decoder). Service short names (all builders) range over the legal ODX "
         "short names: digit first, python keywords, names of list / NamedItemList attributes, leading underscores, `_<n>` suffixes, "
         "names differing only in case, prefixes of each other, 128 characters; layers with two or three such confusable names in "
         "either order; references to a name that is merely similar to a service of the layer (malformed streams: must be "
@@ -40,6 +46,8 @@ TRUSTED = ["model lean/OdxVerif/Model/Variant.lean is hand-written; tied to odxt
            "what the ECU's bytes mean is the business of C01-C06"]
 ASSUMPTIONS = ["a deterministic ECU is a function of the yielded pair (use_physical_addressing, request bytes); the empty byte string "
                "stands for 'no answer'",
+               "an answer is a byte string (a value): evaluate() may be given a bytes or a bytearray object, and the object remains the caller's "
+               "(it may be re-used for the next answer or overwritten as soon as evaluate() has returned) -- the unchanged code copies it",
                "float leaves (tolerance 1e-8) and non-ASCII case mapping of str.upper() are outside the model; floats are checked by "
                "the direct oracle only",
                "theorems about the reported variant assume the loop completed; strict-mode OdxError for unresolvable paths/services "
@@ -48,7 +56,75 @@ ASSUMPTIONS = ["a deterministic ECU is a function of the yielded pair (use_physi
 
 
 # ------------------------------------------------------------------ generators (object family)
+# ---- floating point identification values. "Equal" for a float is |float(expected) - value| < 1e-8: an ABSOLUTE tolerance, the same
+# at every magnitude. The values span the magnitudes (0, below the tolerance, around 1, beyond 10, time stamps ~1.7e9, beyond 2**32,
+# the integers' limit 2**53, where the spacing of doubles exceeds the tolerance, the largest and the smallest double), both signs, and
+# the non-finite values; the expected values are placed at exact decimal distances around a value that straddle the tolerance
+# (absolute distances) or would be inside a RELATIVE tolerance of 1e-9 .. 1e-6 (distances proportional to the magnitude).
+FLOAT_VALUES = ["0.0", "-0.0", "1e-09", "5e-09", "-2e-08", "0.1", "1.0", "1.5", "2.25", "-1.0", "9.5", "10.5", "26.000000001", "255.0",
+                "-255.5", "1000.125", "65535.5", "1000000.25", "16777216.0", "123456789.0", "1700000000.5", "1700000000.0", "-1700000000.0",
+                "4294967295.0", "1000000000000.0", "9007199254740992.0", "1e+15", "-1e+15", "1e+22", "1.7976931348623157e+308", "5e-324",
+                "2.2250738585072014e-308", "inf", "-inf", "nan"]
+FLOAT_ABS_DELTAS = ["0", "1e-12", "1e-9", "5e-9", "9.9e-9", "0.99999999e-8", "1e-8", "1.00000001e-8", "1.01e-8", "2e-8", "1e-7", "1e-6",
+                    "1e-3", "0.5", "1", "2"]
+FLOAT_REL_DELTAS = ["1e-16", "1e-12", "1e-10", "5e-10", "9e-10", "1e-9", "1.1e-9", "1e-8", "1e-7", "1e-6", "1e-3"]
+FLOAT_NONFINITE_EXP = ["inf", "-inf", "nan", "Infinity", "-Infinity", "NaN", "1e999", "-1e999", "1.7976931348623157e308", "0", "0.0", "x", ""]
+
+
+def gen_float_leaf(rng):
+    return ["f", rng.choice(FLOAT_VALUES)]
+
+
+def render_float_expected(rng, v):
+    """an expected value at an exactly known (decimal) distance from the float v, in one of the notations float() reads"""
+    import decimal
+    if v != v or v in (float("inf"), float("-inf")):
+        return rng.choice(FLOAT_NONFINITE_EXP + [repr(v), repr(-v)])
+    if rng.random() < 0.15:
+        # the doubles next to the boundary of the tolerance on either side of v: distance just below, (if representable) exactly, just above 1e-8
+        import math
+        b = v + 1e-8 if rng.random() < 0.5 else v - 1e-8
+        cands = [b]
+        lo = hi = b
+        for _ in range(3):
+            lo, hi = math.nextafter(lo, -math.inf), math.nextafter(hi, math.inf)
+            cands += [lo, hi]
+        exact = [e for e in cands if abs(e - v) == 1e-8]
+        e = rng.choice(exact) if exact and rng.random() < 0.6 else rng.choice(cands)
+        return repr(e)
+    with decimal.localcontext() as c:
+        c.prec = 1200
+        dv = decimal.Decimal(v)      # exact
+        r = rng.random()
+        if r < 0.5:
+            d = decimal.Decimal(rng.choice(FLOAT_ABS_DELTAS))
+        elif r < 0.9:
+            d = abs(dv) * decimal.Decimal(rng.choice(FLOAT_REL_DELTAS))
+        else:
+            d = decimal.Decimal(0)
+        e = dv + d if rng.random() < 0.5 else dv - d
+        form = rng.random()
+        if form < 0.35 and abs(e.adjusted()) < 40:
+            t = format(e, "f")
+            if "." in t:
+                t = t.rstrip("0").rstrip(".") if rng.random() < 0.7 else t
+            return t or "0"
+        if form < 0.6:
+            return format(e.normalize(), "e") if e else "0e0"
+        if form < 0.7:
+            return "+" + format(e.normalize(), "E") if e >= 0 else format(e.normalize(), "E")
+        try:
+            f = float(e)
+        except (OverflowError, ValueError):
+            return format(e.normalize(), "e")
+        if form < 0.8 and abs(f) < 1e17 and f == int(f):
+            return str(int(f))       # the way an integer is written
+        return repr(f)
+
+
 def gen_leaf(rng, allow_float):
+    if allow_float and rng.random() < 0.45:
+        return gen_float_leaf(rng)
     r = rng.random()
     if r < 0.38:
         return ["s", rng.choice(["a", "b", "1", "ff", "AB", "255", "0x1a", "", "AB  ", " a", "1 ", " "])]
@@ -62,13 +138,11 @@ def gen_leaf(rng, allow_float):
         return ["b", rng.random() < 0.5]
     if r < 0.90:
         return ["n"]
-    if allow_float and r < 0.95:
-        return ["f", rng.choice(["1.0", "0.1", "255.0", "26.000000001"])]
     return ["s", rng.choice(["a", "b"])]
 
 
 def render_expected(rng, leaf):
-    """a text that the code considers equal to the leaf"""
+    """a text that the code considers equal to the leaf (a float leaf: a text near it, inside or outside the tolerance)"""
     t = leaf[0]
     v = L.py_of(leaf)
     if t in "yY":
@@ -78,7 +152,7 @@ def render_expected(rng, leaf):
         h = hex(v.trouble_code)
         return rng.choice([h, h.upper(), "0x" + h[2:].upper()])
     if t == "f":
-        return rng.choice([repr(v), repr(v + 1e-9)])
+        return render_float_expected(rng, v)
     return str(v)
 
 
@@ -380,8 +454,14 @@ def gen_script(rng, alphabet):
 
 
 # ------------------------------------------------------------------ oracle
-def key_of(cfg, ecu, strict, cache, script):
-    return json.dumps([cfg, ecu, strict, cache, script], sort_keys=True)
+def key_of(cfg, ecu, strict, cache, script, buf="bytes", memo=None):
+    if memo is not None:
+        if "cfgkey" not in memo:
+            memo["cfgkey"] = json.dumps(cfg, sort_keys=True)
+        ck = memo["cfgkey"]
+    else:
+        ck = json.dumps(cfg, sort_keys=True)
+    return ck + json.dumps([ecu, strict, cache, script] + ([buf] if buf != "bytes" else []), sort_keys=True)
 
 
 def differs_by_addressing(ecu):
@@ -393,106 +473,147 @@ def cfg_has_float(cfg0):
                for o in t.values() if o[0] == "val")
 
 
-def oracle(ctx, fam, cfg0, objs, ecu, strict, witness_extra, pending, alphabet):
-    """direct oracle on the implementation for one (configuration, ECU, strict mode): both cache modes"""
-    obs = {}
-    for cache in (True, False):
-        cfg = dict(cfg0, strict=strict, cache=cache)
-        o = L.run_script(cfg, objs, ["ecu"], ecu)
-        obs[cache] = o
-        ctx.case(key_of(cfg0, ecu, strict, cache, None), nontrivial=len(o.sessions[0]["trace"]) >= 1)
-        ctx.histo("outcome", o.sessions[0]["outcome"])
+_ROT = itertools.count()
+
+
+def alt_bufs(ctx):
+    """the ways of handing the responses over that a case is evaluated in besides plain `bytes` objects, in turn: one of them (quick) /
+    two of them, one that re-uses the buffer and one that does not, one that scribbles and one that does not (thorough)"""
+    alts = L.BUF_MODES[1:]
+    k = next(_ROT)
+    if ctx.tier == "thorough" and len(alts) == 4:
+        return (alts[0], alts[3]) if k % 2 else (alts[1], alts[2])
+    return (alts[k % len(alts)],)
+
+
+def oracle(ctx, fam, cfg0, objs, ecu, strict, witness_extra, pending, alphabet, bufs=("bytes",), memo=None):
+    """direct oracle on the implementation for one (configuration, ECU, strict mode): both cache modes, for every way `bufs` of
+    handing the ECU's answers to evaluate() (the statement is about the answers, not about the objects that hold them)"""
     ref, hazard, idents = L.ref_first_match(cfg0, ecu)
     ctx.histo("spec_result", "none" if ref is None else "first" if ref == 0 else "later")
     for h in hazard:
         ctx.histo("hazard", h)
-    w = {"family": fam, "cfg": cfg0, "ecu": ecu, "strict": strict, **witness_extra}
     floats = "float" in hazard
-    for cache in (True, False):
-        s = obs[cache].sessions[0]
-        f = obs[cache].final
-        tag = "cache-on" if cache else "cache-off"
-        out = s["outcome"]
-        if out != "done":
-            justified = ((out == "err-odx" and (("ill-typed" in hazard and strict) or ("no-service" in hazard and strict)
-                                                or ("other-kind" in hazard and strict) or "encode-raises" in hazard
-                                                or "decode-raises" in hazard))
-                         or (out == "err-foreign" and (("no-service" in hazard and not strict) or "encode-raises" in hazard
-                                                       or "decode-raises" in hazard)))
-            if not justified:
-                feats = [out, tag]
-                last = s["trace"][-1] if s["trace"] else None
-                if last is not None and ecu.get(L.ecu_key(last[0], bytes.fromhex(last[1]))) == "":
-                    feats.append("empty-answer")
-                if out == "err-foreign" and not s["trace"]:
-                    feats.append("before-first-request")
-                if "float" in hazard:
-                    feats.append("float-leaf")
-                ctx.violate("reports-first-match-or-none", feats, out, dict(w, cache=cache),
-                            f"request_loop raised ({out}) although nothing in the candidate descriptions can raise; the matcher stays pending")
-            if f["pending"] is not True or f["has_match"] != "err-runtime" or f["match"] is not None:
-                ctx.violate("error-leaves-pending", [out, tag], json.dumps(f), dict(w, cache=cache),
-                            "after an exception the matcher is not pending / reports a variant")
-        else:
-            exp_hm = "t" if ref is not None else "f"
-            if f["match"] != ref or f["has_match"] != exp_hm or f["pending"] is not False:
-                kind = ("missed" if f["match"] is None else "spurious" if ref is None else "later" if f["match"] > ref else "earlier")
-                ctx.violate("reports-first-match-or-none", [kind, tag], kind, dict(w, cache=cache),
-                            f"the matcher reports candidate {f['match']} (has_match={f['has_match']}) but the first candidate with a fully "
-                            f"matching pattern is {ref}")
-        for ph, r in s["trace"]:
-            if (ph, r) not in idents:
-                ctx.violate("only-ident-requests", [tag], f"{'p' if ph else 'f'}:{r}", dict(w, cache=cache),
-                            "a yielded request is not the identification request of any candidate's matching parameter")
-                break
-        if cache and len({(ph, r) for ph, r in s["trace"]}) != len(s["trace"]):
-            ctx.violate("no-repeat-with-cache", ["cache-on"], json.dumps(s["trace"]), dict(w, cache=True),
-                        "with the cache a request was yielded twice")
-    a, b = obs[True], obs[False]
-    if (a.sessions[0]["outcome"], a.final["match"], a.final["has_match"]) != (b.sessions[0]["outcome"], b.final["match"], b.final["has_match"]):
-        feats = ["addressing-dependent-ecu"] if differs_by_addressing(ecu) else ["addressing-independent-ecu"]
-        if "err-foreign" in (a.sessions[0]["outcome"], b.sessions[0]["outcome"]):
-            feats.append("err-foreign")
-        ctx.violate("cache-irrelevant", feats, f"cache:{a.sessions[0]['outcome']} nocache:{b.sessions[0]['outcome']}", w,
-                    f"the outcome with the response cache ({a.sessions[0]['outcome']}, variant {a.final['match']}) differs from the "
-                    f"outcome without it ({b.sessions[0]['outcome']}, variant {b.final['match']})")
-    # correspondence lines
-    if floats or cfg_has_float(cfg0):
-        ctx.count("float_cases_oracle_only")
-        return
-    sxc = {c: L.sx_cfg(dict(cfg0, strict=strict, cache=c), alphabet) for c in (True, False)}
-    sxe = L.sx_ecu(ecu)
-    for cache in (True, False):
-        pending.append((fam, dict(w, cache=cache, script=["ecu"]), f"(run {sxc[cache]} {sxe} (script (auto)))", L.model_line_of_obs(obs[cache])))
-    pending.append((fam + "/spec", w, f"(spec {sxc[True]} {sxe})",
-                    f"(spec (match {'none' if ref is None else ref})"))
+    model_free = floats or cfg_has_float(cfg0)
+    plain_obs = None
+    for buf in bufs:
+        plain = buf == "bytes"
+        obs = {}
+        for cache in (True, False):
+            cfg = dict(cfg0, strict=strict, cache=cache)
+            o = L.run_script(cfg, objs, ["ecu"], ecu, buf=buf)
+            obs[cache] = o
+            ctx.case(key_of(cfg0, ecu, strict, cache, None, buf, memo), nontrivial=len(o.sessions[0]["trace"]) >= 1)
+            ctx.histo("outcome", o.sessions[0]["outcome"])
+            ctx.histo("response_handed_over_as", buf)
+        w = {"family": fam, "cfg": cfg0, "ecu": ecu, "strict": strict, **witness_extra}
+        bf = []
+        if not plain:
+            w["buf"] = buf
+            bf = ["rx-" + buf]
+        for cache in (True, False):
+            s = obs[cache].sessions[0]
+            f = obs[cache].final
+            tag = "cache-on" if cache else "cache-off"
+            out = s["outcome"]
+            if out != "done":
+                justified = ((out == "err-odx" and (("ill-typed" in hazard and strict) or ("no-service" in hazard and strict)
+                                                    or ("other-kind" in hazard and strict) or "encode-raises" in hazard
+                                                    or "decode-raises" in hazard))
+                             or (out == "err-foreign" and (("no-service" in hazard and not strict) or "encode-raises" in hazard
+                                                           or "decode-raises" in hazard)))
+                if not justified:
+                    feats = [out, tag] + bf
+                    last = s["trace"][-1] if s["trace"] else None
+                    if last is not None and ecu.get(L.ecu_key(last[0], bytes.fromhex(last[1]))) == "":
+                        feats.append("empty-answer")
+                    if out == "err-foreign" and not s["trace"]:
+                        feats.append("before-first-request")
+                    if "float" in hazard:
+                        feats.append("float-leaf")
+                    ctx.violate("reports-first-match-or-none", feats, out, dict(w, cache=cache),
+                                f"request_loop raised ({out}) although nothing in the candidate descriptions can raise; the matcher stays pending")
+                if f["pending"] is not True or f["has_match"] != "err-runtime" or f["match"] is not None:
+                    ctx.violate("error-leaves-pending", [out, tag] + bf, json.dumps(f), dict(w, cache=cache),
+                                "after an exception the matcher is not pending / reports a variant")
+            else:
+                exp_hm = "t" if ref is not None else "f"
+                if f["match"] != ref or f["has_match"] != exp_hm or f["pending"] is not False:
+                    m = f["match"]
+                    kind = ("missed" if m is None else "unobservable" if not isinstance(m, int) else "spurious" if ref is None
+                            else "later" if m > ref else "earlier" if m < ref else "state")
+                    feats = [kind, tag] + bf + (["float-leaf"] if floats else [])
+                    ctx.violate("reports-first-match-or-none", feats, kind, dict(w, cache=cache),
+                                f"the matcher reports candidate {f['match']} (has_match={f['has_match']}) but the first candidate with a fully "
+                                f"matching pattern is {ref}")
+            for ph, r in s["trace"]:
+                if (ph, r) not in idents:
+                    ctx.violate("only-ident-requests", [tag] + bf, f"{'p' if ph else 'f'}:{r}", dict(w, cache=cache),
+                                "a yielded request is not the identification request of any candidate's matching parameter")
+                    break
+            if cache and len({(ph, r) for ph, r in s["trace"]}) != len(s["trace"]):
+                ctx.violate("no-repeat-with-cache", ["cache-on"] + bf, json.dumps(s["trace"]), dict(w, cache=True),
+                            "with the cache a request was yielded twice")
+        a, b = obs[True], obs[False]
+        if (a.sessions[0]["outcome"], a.final["match"], a.final["has_match"]) != (b.sessions[0]["outcome"], b.final["match"], b.final["has_match"]):
+            feats = ["addressing-dependent-ecu"] if differs_by_addressing(ecu) else ["addressing-independent-ecu"]
+            if "err-foreign" in (a.sessions[0]["outcome"], b.sessions[0]["outcome"]):
+                feats.append("err-foreign")
+            ctx.violate("cache-irrelevant", feats + bf, f"cache:{a.sessions[0]['outcome']} nocache:{b.sessions[0]['outcome']}", w,
+                        f"the outcome with the response cache ({a.sessions[0]['outcome']}, variant {a.final['match']}) differs from the "
+                        f"outcome without it ({b.sessions[0]['outcome']}, variant {b.final['match']})")
+        # correspondence lines (the model knows values only: the same line whatever object held the response)
+        if model_free:
+            ctx.count("float_cases_oracle_only")
+            continue
+        if plain:
+            plain_obs = obs
+        elif plain_obs is not None and all(obs[c].canon() == plain_obs[c].canon() for c in (True, False)):
+            # observed exactly what was observed with `bytes` objects (traces, outcomes, state, cache content), and that is compared with the model
+            ctx.count("rx_observations_identical_to_the_bytes_observation", 2)
+            continue
+        sxc = {c: L.sx_cfg(dict(cfg0, strict=strict, cache=c), alphabet, memo) for c in (True, False)}
+        sxe = L.sx_ecu(ecu)
+        for cache in (True, False):
+            pending.append((fam if plain else fam + "/rx", dict(w, cache=cache, script=["ecu"]), f"(run {sxc[cache]} {sxe} (script (auto)))",
+                            L.model_line_of_obs(obs[cache])))
+        if plain:
+            pending.append((fam + "/spec", w, f"(spec {sxc[True]} {sxe})",
+                            f"(spec (match {'none' if ref is None else ref})"))
 
 
-def misuse(ctx, fam, cfg0, objs, ecu, strict, cache, script, witness_extra, pending, alphabet):
+def misuse(ctx, fam, cfg0, objs, ecu, strict, cache, script, witness_extra, pending, alphabet, buf="bytes", memo=None):
     """arbitrary caller: correspondence + the 'only identification requests' clause"""
     cfg = dict(cfg0, strict=strict, cache=cache)
-    o = L.run_script(cfg, objs, script, ecu)
+    o = L.run_script(cfg, objs, script, ecu, buf=buf)
     _, _, idents = L.ref_first_match(cfg0, ecu)
-    ctx.case(key_of(cfg0, ecu, strict, cache, script), nontrivial=any(s["trace"] for s in o.sessions))
+    ctx.case(key_of(cfg0, ecu, strict, cache, script, buf, memo), nontrivial=any(s["trace"] for s in o.sessions))
     ctx.histo("misuse_outcome", "/".join(str(s["outcome"]) for s in o.sessions)[:40])
+    ctx.histo("misuse_response_handed_over_as", buf)
     w = {"family": fam, "cfg": cfg0, "ecu": ecu, "strict": strict, "cache": cache, "script": script, **witness_extra}
+    bf = []
+    if buf != "bytes":
+        w["buf"] = buf
+        bf = ["rx-" + buf]
     for s in o.sessions:
         for ph, r in s["trace"]:
             if (ph, r) not in idents:
-                ctx.violate("only-ident-requests", ["misuse"], f"{'p' if ph else 'f'}:{r}", w,
+                ctx.violate("only-ident-requests", ["misuse"] + bf, f"{'p' if ph else 'f'}:{r}", w,
                             "a yielded request is not the identification request of any candidate's matching parameter")
                 break
     if cfg_has_float(cfg0):
         ctx.count("float_cases_oracle_only")
         return
-    pending.append((fam + "/misuse", w, f"(run {L.sx_cfg(cfg, alphabet)} {L.sx_ecu(ecu)} {L.sx_script(script)})", L.model_line_of_obs(o)))
+    pending.append((fam + "/misuse", w, f"(run {L.sx_cfg(cfg, alphabet, memo)} {L.sx_ecu(ecu)} {L.sx_script(script)})", L.model_line_of_obs(o)))
 
 
 def flush(ctx, pending):
     if not pending:
         return
     drv = ctx.driver("drv_variant")
-    replies = drv.query([p[2] for p in pending])
+    lines = list(dict.fromkeys(p[2] for p in pending))       # the same question (several ways of handing the responses over) is asked once
+    answer = dict(zip(lines, drv.query(lines)))
+    replies = [answer[p[2]] for p in pending]
     for (fam, w, line, impl), rep in zip(pending, replies):
         ctx.traces += 1
         for j, i in (w.get("cfg") or {}).get("dup", []):
@@ -583,30 +704,70 @@ XMLT_PATHS = [("id",), ("info", "type"), ("info", "code"), ("dtc",), ("items", "
 XMLT_EXP = ["AB  ", "  AB", "AB", " AB ", "ABCD", "ab  ", "1 ", " 1", "1", "A ", " A", "A", "  ", " ", "", "5", " 5", "abcd "]
 
 
-def gen_xmltext(rng, malformed):
+# floating point identification through the real loader and the real decoder: IEEE doubles / singles as sent by the ECU (a single
+# widens to a double that is NOT the decimal it was written as: 0.1f = 0.10000000149011612), an integer scaled to a float, floats in
+# a structure and in the items of a field; DIDs 4 and 5 answer alike (shared / distinct identification services)
+def _fresp(did, stamp, ratio, raw, cal, cals):
+    import struct
+    return (bytes([0x62, did]) + struct.pack(">d", stamp) + struct.pack(">f", ratio) + struct.pack(">I", raw) + struct.pack(">d", cal)
+            + b"".join(struct.pack(">d", c) for c in cals)).hex()
+
+
+_INF, _NAN = float("inf"), float("nan")
+XMLF_TUPLES = [(1700000000.5, 0.1, 3399999999, 2.25, [1.0, 1e15]), (1700000000.0, 1.5, 3400000000, 2.250000001, [1700000000.5]),
+               (1700000001.0, 16777216.0, 0, 1e-9, []), (2.25, 3.4028234663852886e38, 4294967295, -1700000000.0, [255.0, 255.5, 256.0]),
+               (9007199254740992.0, -0.0, 1, 65535.5, [0.1]), (_INF, _NAN, 2, -_INF, [_NAN, 1.0]), (26.000000001, 1e-9, 51, 1000000.25, [1e22]),
+               (1700000000.5, 0.1, 3399999999, 2.25, [1e15, 1.0]), (-255.5, 255.0, 509, 10.5, [10.5, 9.5]), (0.0, 0.0, 0, 0.0, [0.0])]
+XMLF_ALPHA = {did: [_fresp(did, *t) for t in XMLF_TUPLES] for did in (4, 5)}
+XMLF_PATHS = [("stamp",), ("ratio",), ("scaled",), ("cal", "stamp"), ("cals", "stamp"), ("id",), ("info", "type"), ("dtc",), ("nrc",),
+              ("sid",), ("did",)]
+XMLF_EXP = ["1700000000.5", "1700000000", "1.7e9", "2.25", "0.1", "0.10000000149011612", "1", "1.0", "0", "-0.0", "inf", "nan", "x", "",
+            "255", "5", "1e15", "1E+15"]
+XML_FLAVOURS = {
+    # name index -> DID; the service sets a layer may have; extra alphabet by kind of DID; target paths; fallback expected values
+    "text": ([1, 2, 3], [[2], [2], [0, 2], [1, 2], [0], [0, 1]]),
+    "float": ([4, 2, 5], [[0], [0], [0, 1], [0, 2], [2], [2, 0], [1, 2]]),
+}
+
+
+def gen_xmltext(rng, malformed, flavour="text"):
     """-> (layers, alphabet) or raises if the skeleton cannot be loaded"""
+    dids, ksets = XML_FLAVOURS[flavour]
     n = rng.choice([1, 2, 2, 3, 4])
     scenario = rng.choice(["ecu", "ecu", "base", "mixed"])
     skel = []
     names_all = pick_names(rng)
     for i in range(n):
         kind = scenario if scenario != "mixed" else rng.choice(["ecu", "base"])
-        ks = list(rng.choice([[2], [2], [0, 2], [1, 2], [0], [0, 1]]))
+        ks = list(rng.choice(ksets))
         rng.shuffle(ks)
-        skel.append((f"L{i}", kind, [(names_all[k], k + 1) for k in ks], []))
-    has_str = any(d >= 3 for l in skel for _, d in l[2])
-    has_num = any(d < 3 for l in skel for _, d in l[2])
-    pool = (XMLT_ALPHA_STR if has_str else []) + (XMLT_ALPHA_NUM if has_num else [])
-    alpha = rng.sample(pool, rng.choice([2, 2, 3])) + ([rng.choice(XMLT_ALPHA_NEG)] if rng.random() < 0.4 else [])
+        skel.append((f"L{i}", kind, [(names_all[k], dids[k]) for k in ks], []))
+    have = {d for l in skel for _, d in l[2]}
+    pool = (XMLT_ALPHA_STR if 3 in have else []) + (XMLT_ALPHA_NUM if have & {1, 2} else [])
+    for d in (4, 5):
+        if d in have:
+            pool = pool + XMLF_ALPHA[d]
+    if flavour == "float":
+        # responses that differ in a float only by a little (the same DID) must meet in one alphabet
+        alpha = rng.sample(pool, min(len(pool), rng.choice([2, 3, 3, 4])))
+        paths, fallback = XMLF_PATHS, XMLF_EXP
+    else:
+        alpha = rng.sample(pool, rng.choice([2, 2, 3]))
+        paths, fallback = XMLT_PATHS, XMLT_EXP
+    alpha = alpha + ([rng.choice(XMLT_ALPHA_NEG)] if rng.random() < 0.4 else [])
     _, objs = L.xml_load(skel)
     probe = L.cfg_from_objects(objs, False, True, alpha)
     layers = []
     for (name, kind, svcs, _), v in zip(skel, probe["cands"]):
         # a text leaf that cannot be written into an XML 1.0 document (control characters; \r is normalised by the XML
         # parser) cannot be an EXPECTED-VALUE
-        targets = [t for t in candidate_targets(v, XMLT_PATHS)
+        targets = [t for t in candidate_targets(v, paths)
                    if not (t[2][0] == "s" and any((ord(c) < 32 and c not in "\t\n") or ord(c) in (0x7f, 0xfffe, 0xffff) or 0xd800 <= ord(c) <= 0xdfff
                                                   for c in t[2][1]))]
+        if flavour == "float":
+            fl = [t for t in targets if t[2][0] == "f"]
+            if fl:
+                targets = fl * 3 + targets       # mostly the float leaves
         pats = []
         for _ in range(rng.choice([0, 1, 1, 2, 3]) if kind == "ecu" else rng.choice([0, 1, 1, 1])):
             pat = []
@@ -615,11 +776,11 @@ def gen_xmltext(rng, malformed):
                     sn, path, leaf = rng.choice(targets)
                     exp = render_expected(rng, leaf)
                 else:
-                    sn, path, exp = rng.choice(svcs)[0], rng.choice(XMLT_PATHS), rng.choice(XMLT_EXP)
-                if rng.random() < 0.4:
+                    sn, path, exp = rng.choice(svcs)[0], rng.choice(paths), rng.choice(fallback)
+                if rng.random() < (0.4 if flavour == "text" else 0.05):
                     exp = pad_expected(rng, exp)
                 if malformed and rng.random() < 0.3:
-                    snref, pth = rng.choice(XML_ODD + [("name.x", None), (None, "sw"), (None, "tags")])
+                    snref, pth = rng.choice(XML_ODD + [("name.x", None), (None, "sw"), (None, "tags"), (None, "cal"), (None, "cals"), ("cal.stamp", None)])
                 elif len(path) == 1 and rng.random() < 0.6:
                     snref, pth = path[0], None
                 else:
@@ -634,7 +795,57 @@ def gen_xmltext(rng, malformed):
 
 
 # ------------------------------------------------------------------ run
+def float_stats(ctx, cfg0):
+    """where the expected values lie relative to the float leaves they are compared with (one count per parameter x leaf)"""
+    for v in cfg0["cands"]:
+        svcs = {}
+        for s in v.get("services", []):
+            svcs.setdefault(s["name"], s)
+        for pat in v["patterns"]:
+            for p in pat:
+                s = svcs.get(p["svc"])
+                path = [p["snref"]] if p["snref"] is not None else (p["path"].split(".") if p["path"] is not None else None)
+                if s is None or path is None:
+                    continue
+                for t in list(s["pos"]) + list(s["neg"]) + list(v.get("gneg", [])):
+                    for o in t.values():
+                        if o[0] != "val" or not L.has_float(o[1]):
+                            continue
+                        for leaf in L.ref_leaves(L.py_of(o[1]), path):
+                            if not isinstance(leaf, float):
+                                continue
+                            try:
+                                e = float(p["exp"])
+                            except ValueError:
+                                ctx.histo("float_expected_value", "not-a-number")
+                                continue
+                            d = abs(e - leaf)
+                            if d != d or d == float("inf"):
+                                k = "non-finite"
+                            elif d == 0:
+                                k = "exact"
+                            elif d == 1e-8:
+                                k = "exactly-at-the-tolerance"
+                            elif d < 1e-8:
+                                k = "inside-the-tolerance"
+                            elif d <= 1e-6 * max(abs(e), abs(leaf)):
+                                k = "outside-the-tolerance-but-relatively-close(<=1e-6)"
+                            elif d <= 2:
+                                k = "outside-the-tolerance-near(<=2)"
+                            else:
+                                k = "far"
+                            ctx.histo("float_expected_value", k)
+                            m = abs(leaf)
+                            ctx.histo("float_leaf_magnitude", "0" if m == 0 else "<1e-8" if m < 1e-8 else "<=10" if m <= 10 else "<=1e6" if m <= 1e6
+                                      else "<=2**32" if m <= 2 ** 32 else "<=2**53" if m <= 2 ** 53 else "finite-beyond" if m < float("inf") else "non-finite")
+
+
 def run_cfg(ctx, rng, fam, cfg0, objs, alphabet, witness_extra, pending, table_limit, n_misuse, stricts):
+    if "float" in fam:
+        try:
+            float_stats(ctx, cfg0)
+        except Exception as e:  # noqa
+            ctx.count("float_stats_failed")
     keys = L.all_ident_keys(cfg0)
     tables, exhaustive = ecu_tables(rng, keys, alphabet, table_limit)
     ctx.histo("ecu_tables", "exhaustive" if exhaustive else "sampled")
@@ -650,12 +861,14 @@ def run_cfg(ctx, rng, fam, cfg0, objs, alphabet, witness_extra, pending, table_l
             for p in pat:
                 ctx.histo("diag_comm_snref", name_kind(p["svc"]) if p["svc"] in have else "no-such-service")
                 ctx.histo("target", "snref" if p["snref"] is not None else "snpathref" if p["path"] is not None else "none")
+    memo = {}
     for ecu in tables:
         for strict in stricts:
-            oracle(ctx, fam, cfg0, objs, ecu, strict, witness_extra, pending, alphabet)
+            oracle(ctx, fam, cfg0, objs, ecu, strict, witness_extra, pending, alphabet, ("bytes",) + alt_bufs(ctx), memo)
     for _ in range(n_misuse):
         ecu = rng.choice(tables)
-        misuse(ctx, fam, cfg0, objs, ecu, rng.choice(stricts), rng.random() < 0.6, gen_script(rng, alphabet), witness_extra, pending, alphabet)
+        misuse(ctx, fam, cfg0, objs, ecu, rng.choice(stricts), rng.random() < 0.6, gen_script(rng, alphabet), witness_extra, pending, alphabet,
+               rng.choice(L.BUF_MODES), memo)
 
 
 def run(ctx):
@@ -664,6 +877,8 @@ def run(ctx):
     big = ctx.tier == "thorough"
     rng = ctx.rng
     pending = []
+    global _ROT
+    _ROT = itertools.count()
     # (a) corpus
     for cfg0, ecu in CORPUS:
         try:
@@ -673,13 +888,14 @@ def run(ctx):
             continue
         alphabet = L.resp_alphabet(cfg0, ecu)
         for strict in (True, False):
-            oracle(ctx, "corpus", cfg0, objs, ecu, strict, {}, pending, alphabet)
-        misuse(ctx, "corpus", cfg0, objs, ecu, True, True, [[None]], {}, pending, alphabet)
-        misuse(ctx, "corpus", cfg0, objs, ecu, True, True, [[], "ecu", "ecu"], {}, pending, alphabet)
+            oracle(ctx, "corpus", cfg0, objs, ecu, strict, {}, pending, alphabet, tuple(L.BUF_MODES))
+        for buf in L.BUF_MODES:
+            misuse(ctx, "corpus", cfg0, objs, ecu, True, True, [[None]], {}, pending, alphabet, buf)
+            misuse(ctx, "corpus", cfg0, objs, ecu, True, True, [[], "ecu", "ecu"], {}, pending, alphabet, buf)
     flush(ctx, pending)
     # (b)+(c) object family: mostly-valid stream, malformed stream, float stream
     streams = [("obj", False, False, 4000 if big else 520), ("obj-malformed", True, False, 1600 if big else 210),
-               ("obj-float", False, True, 400 if big else 60)]
+               ("obj-float", False, True, 1500 if big else 160)]
     for fam, malformed, allow_float, count in streams:
         r = ctx.sub_rng(fam)
         for n in range(count):
@@ -696,14 +912,15 @@ def run(ctx):
     # XML family: real parser, real encode_request (bytearray!) and decode. The reference and the model get the matching
     # parameters *as written in the document*, the real matcher the loaded objects: the loader is part of the checked system
     xml_streams = [("xml", False, 900 if big else 110), ("xml-malformed", True, 350 if big else 45),
-                   ("xml-text", False, 700 if big else 90), ("xml-text-malformed", True, 200 if big else 25)]
+                   ("xml-text", False, 700 if big else 90), ("xml-text-malformed", True, 200 if big else 25),
+                   ("xml-float", False, 500 if big else 60), ("xml-float-malformed", True, 150 if big else 15)]
     for fam, malformed, count in xml_streams:
         r = ctx.sub_rng(fam)
         for n in range(count):
             layers = None
             try:
-                if fam.startswith("xml-text"):
-                    layers, alpha = gen_xmltext(r, malformed)
+                if fam.startswith(("xml-text", "xml-float")):
+                    layers, alpha = gen_xmltext(r, malformed, "float" if "float" in fam else "text")
                 else:
                     layers = gen_xml_layers(r, malformed)
                     alpha = None
@@ -742,8 +959,10 @@ def replay(ctx, data):
     else:
         objs = L.build_candidates(w["cfg"])
     alphabet = w.get("alphabet") or L.resp_alphabet(w["cfg"], w["ecu"])
+    buf = w.get("buf", "bytes")
+    pending = []
     if "script" in w and w["script"] != ["ecu"]:
-        misuse(sub, "replay", w["cfg"], objs, w["ecu"], w["strict"], w["cache"], w["script"], {}, [], alphabet)
+        misuse(sub, "replay", w["cfg"], objs, w["ecu"], w["strict"], w["cache"], w["script"], {}, pending, alphabet, buf)
     else:
-        oracle(sub, "replay", w["cfg"], objs, w["ecu"], w["strict"], {}, [], alphabet)
+        oracle(sub, "replay", w["cfg"], objs, w["ecu"], w["strict"], {}, pending, alphabet, tuple(dict.fromkeys(["bytes", buf])))
     return not sub.violations
